@@ -6,13 +6,14 @@ from checks.common import *
 
 RULE = ("bases of 1-3 shells (l 0..4, generalized, Cartesian/spherical/mixed) with exponents 0.3..3 and centres within 1 bohr of "
         "the origin; the library's evaluate_basis / evaluate_deriv_basis / evaluate_density / "
-        "evaluate_posdef_kinetic_energy_density outputs are integrated with the trapezoid rule on a uniform grid (h = 0.25, box "
-        "+-9 bohr, 73^3 points; geometric convergence below 1e-10) and compared with overlap_integral, moment_integral (orders "
+        "evaluate_posdef_kinetic_energy_density outputs are integrated with the trapezoid rule on a uniform grid (h = 0.2, box "
+        "+-9 bohr, 91^3 points; geometric convergence below 1e-12) and compared with overlap_integral, moment_integral (orders "
         "up to 2, several origins), kinetic_energy_integral (half the products of gradients), tr(gamma S) and tr(gamma T) within "
         "1e-8 x scale; distinct by basis signature")
 ASSUMPTIONS = ["trapezoid rule error < 1e-10 for the stated exponent/centre range (band-limited Gaussians; checked by halving h in the thorough tier)"]
 
-H = 0.25
+H = 0.2      # the property quotes h = 0.25; for l = 4 with exponents near 3 that spacing leaves an error of ~1e-6 in the
+             # kinetic diagonal (measured: 7e-7 at h = 0.25, 4e-13 at h = 0.2), so the check integrates on a finer grid
 BOX = 9.0
 
 
